@@ -1,11 +1,17 @@
 #!/bin/bash
-# usage: mut.sh <patch-file> <ID> [tier]   apply a patch to /repo, run one check, undo.
+# usage: mut.sh <patch-file> <ID> [tier]
+# Applies a patch to /repo under an exclusive lock, runs one check, undoes the patch.
 set -u
-P="$1"; ID="$2"; TIER="${3:-quick}"
+P="$(realpath "$1")"; ID="$2"; TIER="${3:-quick}"
+mkdir -p /verif/work
+exec 9>/verif/work/repo.lock
+flock -x 9
+if ! git -C /repo diff --quiet; then echo "refusing: /repo has uncommitted changes"; exit 3; fi
 git -C /repo apply "$P" || { echo "patch does not apply"; exit 3; }
-/verif/bin/check "$ID" --tier "$TIER" > /tmp/mut.$$.log 2>&1; rc=$?
-git -C /repo checkout -- . 
-grep -E '^(VIOLATION|KNOWN-FINDING|TOOL-ERROR|DRIFT)' /tmp/mut.$$.log | head -8
-tail -2 /tmp/mut.$$.log
-echo "rc=$rc"; rm -f /tmp/mut.$$.log
+LOG=$(mktemp)
+VERIF_LOCK_HELD=1 /verif/bin/check "$ID" --tier "$TIER" > "$LOG" 2>&1; rc=$?
+git -C /repo checkout -- .
+grep -E '^(VIOLATION|KNOWN-FINDING|TOOL-ERROR|DRIFT)' "$LOG" | head -8
+tail -2 "$LOG"
+echo "rc=$rc"; rm -f "$LOG"
 exit $rc
